@@ -37,7 +37,7 @@ ASSUMPTIONS = ["representation invariant of interaction trees assumed by tree.*:
 OUTSIDE = ["trees deeper than 3 levels or with more than 2 calls per function", "the rendered image (only the dot text is parsed back)"]
 FUNCTIONS_ENCODED = ["dds._plotting._structure", "dds._plotting.build_graph", "dds._plotting.draw_graph", "dds._api._eval_new_ctx (export hook)"]
 BOUNDS = {"quick": {"tree": "root + 2 calls + 1..2 calls below each (<= 7 nodes); every combination of kept flags x named-argument flags of the calls that have an earlier sibling; shared-signature (same path / other path) and load flags in separate queries; tree.wide: root + 4 siblings, the first a kept node S, each later one of 6 kinds (kept / with arguments / calling S again), 6^3 x 4 trees", "export": ["T1", "T3", "T4", "T5", "T6", "T7", "T8", "T9"]}}
-BOUNDS["thorough"] = BOUNDS["quick"]
+BOUNDS["thorough"] = dict(BOUNDS["quick"], tree=BOUNDS["quick"]["tree"] + "; tree.wide5: root + 5 siblings (6^4 x 4 trees)")
 LAST_DETAIL = [""]
 
 
@@ -179,7 +179,7 @@ def wide_impl(a):
     if h.blocked(**a):
         return True
     sel = h.SEL
-    ks = [sel["k2"], a["k3"], a["k4"]]
+    ks = [sel["k2"], sel["k3"] if "k3" in sel else a["k3"], a["k4"]] + ([a["k5"]] if sel.get("five") else [])
     S = N("s", 1, a["sargs"])
     kids = [S]
     for i, k in enumerate(ks):
@@ -302,6 +302,8 @@ def make_fn(fn, sel, tag):
                 pres.append("0 <= %s <= %d" % (name, hi))
         return h.gen_fn(tag, "tree", params, pres, "harness.C18", "tree_impl")
     if fn == "wide":
+        if sel.get("five"):
+            return h.gen_fn(tag, "wide", [("k4", "int"), ("k5", "int"), ("rk", "int"), ("sargs", "int")], ["0 <= k4 <= 5 and 0 <= k5 <= 5", "0 <= rk <= 1 and 0 <= sargs <= 1"], "harness.C18", "wide_impl")
         return h.gen_fn(tag, "wide", [("k3", "int"), ("k4", "int"), ("rk", "int"), ("sargs", "int")], ["0 <= k3 <= 5 and 0 <= k4 <= 5", "0 <= rk <= 1 and 0 <= sargs <= 1"], "harness.C18", "wide_impl")
     return h.gen_fn(tag, "export", [("v", "int")], ["0 <= v <= 1"], "harness.C18", "export_impl")
 
@@ -318,6 +320,11 @@ def queries(tier):
     # four siblings, the first one a kept node that later siblings reach again (chains of call-order edges)
     for k2 in range(6):
         qs.append({"id": "tree.wide.k%d" % k2, "fn": "wide", "sel": {"k2": k2}, "timeout": 900})
+    if tier == "thorough":
+        # five siblings
+        for k2 in range(6):
+            for k3 in range(6):
+                qs.append({"id": "tree.wide5.k%d%d" % (k2, k3), "fn": "wide", "sel": {"k2": k2, "k3": k3, "five": 1}, "timeout": 1200})
     for tn, entry, nargs in (("T1", None, False), ("T3", ["tq.m1", "root"], True), ("T4", ["tq.m1", "root"], True), ("T5", None, False), ("T6", None, False), ("T7", None, False), ("T8", None, False), ("T9", ["tq.m1", "root_a"], False), ("T9", ["tq.m1", "root_d"], False)):
         qs.append({"id": "export.%s%s" % (tn, ("." + entry[1]) if entry else ""), "fn": "export", "sel": {"template": tn, "entry": entry, "nargs": nargs}, "timeout": 400})
     return qs
